@@ -6,4 +6,9 @@ theorem filtration_poll_checks (lag : Nat) :
     (filtrationPolls.all fun (ph, n) => pollOK (filtration lag) filtrationTimerReach ph n) = true :=
   (by decide +kernel : (filtrationPolls.all fun (ph, n) => pollOK (filtration 0) filtrationTimerReach ph n) = true)
 
+
+theorem filtration_wintering_waiting_norearm (lag : Nat) :
+    noRearm (filtration lag) filtrationTimerReach filtrationPolls[7].1 = true :=
+  (by decide +kernel : noRearm (filtration 0) filtrationTimerReach filtrationPolls[7].1 = true)
+
 end Poupool.Timing
